@@ -178,6 +178,7 @@ structure Retired (app : App) (s s' : State) (a : Arch) : Prop where
   xq : s'.executeBus.queue = []
   eus : ∀ eu ∈ s'.eus, eu.co = .none ∧ eu.memory = []
   keep : EuKeep s s'
+  stamps : ∀ e ∈ s'.writeBus.buffer, e.1 ≤ s'.cycles + 1
 
 /-- an execute unit has executed a taken conditional branch whose target is not the next instruction: `a'` is the
 architectural state behind the branch.  The results on the write bus that the drain will keep (`kept from_`) make up the
@@ -204,6 +205,7 @@ structure FlushNow (app : App) (s s' : State) (a' : Arch) (from_ : Word) : Prop 
   noRet : ∀ y ∈ s'.executeBus.queue, ¬ isRet y
   sid0 : s'.ctx.sequenceID = 0
   plain : NoJmp app → s'.fu.toCleanPending = false
+  stamps : ∀ e ∈ s'.writeBus.buffer, e.1 ≤ s'.cycles + 1
 
 theorem ite_pair_snd {α β : Type} (c : Prop) [Decidable c] (a b : α) (f : β) : (if c then (a, f) else (b, f)).2 = f := by
   split <;> rfl
@@ -375,9 +377,9 @@ theorem euCycle_sim (app : App) (hp : ProgJ app) (s s' : State) (a : Arch) (i : 
     -- what makes the pipeline move is kept by a step that is not a `ret`
     have hlive : ∀ (e : Gen.Execution) (bu : BranchUnit) (fu : FetchUnit) (du : DecodeUnit),
         x.instr.run s.ctx app.labels x.pc [] 0#32 = .ok e → e.Return = false → du.ret = s.du.ret →
-        (Live s → fu.co = .done → fu.complete = true) → Live s → Live (afterExec s i x q bu e fu du) := by
+        (Live s → FuOk fu) → Live s → Live (afterExec s i x q bu e fu du) := by
       intro e bu fu du hr hret hdu hfu hl
-      refine ⟨fun en hen => hl.xdue en hen, hl.cdue, hl.ddue, hl.cql, hl.dql, ?_, ?_, hfu hl⟩
+      refine ⟨fun en hen => hl.xdue en hen, hl.cdue, hl.ddue, hl.cql, hl.dql, ?_, ?_, hfu hl, hl.xbl, hl.pcap⟩
       · have := hl.backL
         rw [hxin] at this
         have h2 := this.execute e
@@ -423,7 +425,7 @@ theorem euCycle_sim (app : App) (hp : ProgJ app) (s s' : State) (a : Arch) (i : 
       refine ⟨?_, ?_⟩
       · refine ⟨?_, ?_, ?_, hbk.mem, hbk.ratS, hbk.txS, hbk.ratA, hbk.txA, ⟨n', hpc', hn'le⟩, heus', hkeep _ _ _ _, hncond, hK, ?_, hm.wbl,
           ⟨n0, n0 + 1, hxok.1, Nat.lt_succ_self _, hchain'⟩, fun r hr => hm.seqs.rseq hncond h0 r (hrunS hr),
-          fun y hy => hnoret y hy, h0, hpl⟩
+          fun y hy => hnoret y hy, h0, hpl, ?_⟩
         · show applyW ((s.writeBus.add (ecOf x e) s.cycles).inside.filter (kept x.pc)) s.ctx.Registers = a'.ctx.Registers
           rw [inside_add, List.filter_eq_self.mpr hallKept]; exact hbk.regs.symm
         · show ∀ ec ∈ (s.writeBus.add (ecOf x e) s.cycles).inside, ec.execution.MemoryChange = false
@@ -433,6 +435,11 @@ theorem euCycle_sim (app : App) (hp : ProgJ app) (s s' : State) (a : Arch) (i : 
         · show (s.writeBus.add (ecOf x e) s.cycles).buffer.length + q.length ≤ 2
           simp only [BufferedBus.add, List.length_append, List.length_cons, List.length_nil]
           have := hm.room; rw [hq] at this; simp only [List.length_cons] at this; omega
+        · intro en hen
+          simp only [afterExec, BufferedBus.add, List.mem_append, List.mem_singleton] at hen
+          rcases hen with hen | hen
+          · exact hm.stamps en hen
+          · subst hen; exact Int.le_refl _
       · intro hw y hy hby
         obtain ⟨_, q', hq', hnb⟩ := hw.brq x (by rw [hq]; exact List.mem_cons_self) hbr
         rw [hq] at hq'
@@ -499,7 +506,7 @@ theorem euCycle_sim (app : App) (hp : ProgJ app) (s s' : State) (a : Arch) (i : 
             exact this
           subst hq0
           exact ⟨rfl, hhalt, hback.dropHead, rfl, heus', ⟨rfl, rfl, by simp only [List.length_set], rfl, rfl, rfl, rfl, rfl, rfl,
-            by simp only [hq, List.length_cons, List.length_nil]; omega, rfl, rfl, rfl, rfl, rfl⟩⟩
+            by simp only [hq, List.length_cons, List.length_nil]; omega, rfl, rfl, rfl, rfl, rfl⟩, hm.stamps⟩
         | false =>
           obtain ⟨a', n', hstep, hpc', hn'le, hback', hmc, hnf1, hnf2⟩ := hexe e hr hret
           simp only [hr, hret, hmc, Bool.false_eq_true, if_false, bind, Except.bind, pure, Except.pure, hub] at h
@@ -606,7 +613,7 @@ theorem euCycle_sim (app : App) (hp : ProgJ app) (s s' : State) (a : Arch) (i : 
             · intro hc; simp only [afterExec] at hc; cases hc
           refine ⟨by simp only [hfl, Bool.false_eq_true, if_false], a', Or.inr hstep,
             hmidG e a' n' _ _ _ hpc' hback' hfr (fun _ _ => Or.inr hrest), hkeep _ _ _ _,
-            hlive e _ _ _ hr hret rfl (fun _ hc => by simp only [FetchUnit.reset] at hc; cases hc), (fun _ => hstep), fun h => by cases h⟩
+            hlive e _ _ _ hr hret rfl (fun _ => ⟨(fun hc => by simp only [FetchUnit.reset] at hc; cases hc), fun hc => by simp only [FetchUnit.reset] at hc; cases hc⟩), (fun _ => hstep), fun h => by cases h⟩
 
 /-- once the execute bus queue is empty the remaining execute units find nothing -/
 theorem eus_noop (app : App) : ∀ (n i : Nat) (s : State) (acc : EuAcc), i + n = s.eus.length →
@@ -705,7 +712,7 @@ theorem euCycle_wrong (app : App) (hp : ProgJ app) (s0 s s' : State) (a' : Arch)
     refine ⟨rfl, ?_, fun y hy => hnb y (by rw [hq]; exact List.mem_cons_of_mem _ hy)⟩
     refine ⟨?_, ?_, hf.qKept, hf.mem, hf.ratS, hf.txS, hf.ratA, hf.txA, hf.npc, ?_, ?_, hf.cond, hf.k, ?_, hf.wbl,
       ⟨nb, m + 1, hfrom, by omega, hchain'⟩, fun r hr => hf.rseq r (hrunS hr),
-      fun y hy => hf.noRet y (by rw [hq]; exact List.mem_cons_of_mem _ hy), hf.sid0, hf.plain⟩
+      fun y hy => hf.noRet y (by rw [hq]; exact List.mem_cons_of_mem _ hy), hf.sid0, hf.plain, ?_⟩
     · show applyW ((s.writeBus.add (ecOf x e) s.cycles).inside.filter (kept from_)) s.ctx.Registers = a'.ctx.Registers
       rw [inside_add, List.filter_append]
       simp only [List.filter_cons, hnk, Bool.false_eq_true, if_false, List.filter_nil, List.append_nil]
@@ -725,11 +732,16 @@ theorem euCycle_wrong (app : App) (hp : ProgJ app) (s0 s s' : State) (a' : Arch)
     · show (s.writeBus.add (ecOf x e) s.cycles).buffer.length + q.length ≤ 2
       simp only [BufferedBus.add, List.length_append, List.length_cons, List.length_nil]
       have := hf.room; rw [hq] at this; simp only [List.length_cons] at this; omega
+    · intro en hen
+      simp only [BufferedBus.add, List.mem_append, List.mem_singleton] at hen
+      rcases hen with hen | hen
+      · exact hf.stamps en hen
+      · subst hen; exact Int.le_refl _
 
 theorem FlushNow.pre {app : App} {s0 s s' : State} {a' : Arch} {from_ : Word} (h : FlushNow app s s' a' from_)
     (hk : EuKeep s0 s) : FlushNow app s0 s' a' from_ :=
   ⟨h.regsT, h.nomem, h.qKept, h.mem, h.ratS, h.txS, h.ratA, h.txA, h.npc, h.eus, hk.trans h.keep, h.cond,
-   by rw [← hk.eul]; exact h.k, h.room, h.wbl, h.chain, h.rseq, h.noRet, h.sid0, h.plain⟩
+   by rw [← hk.eul]; exact h.k, h.room, h.wbl, h.chain, h.rseq, h.noRet, h.sid0, h.plain, h.stamps⟩
 
 /-- the execute units behind the flushing one -/
 theorem eus_wrong (app : App) (hp : ProgJ app) (s0 : State) (a' : Arch) (from_ : Word) : ∀ (n i : Nat) (s s' : State) (acc acc' : EuAcc),
@@ -811,7 +823,7 @@ theorem eusCycle_sim (app : App) (hp : ProgJ app) (a0 : Arch) (hT : ∀ k a, Pro
             exact e8 hqe
         · right; left; exact e
         · right; right; left
-          exact ⟨e1, k2, a2, e2, ⟨e3.halt, e3.back, e3.xq, e3.eus, hk1.trans e3.keep⟩, by omega⟩
+          exact ⟨e1, k2, a2, e2, ⟨e3.halt, e3.back, e3.xq, e3.eus, hk1.trans e3.keep, e3.stamps⟩, by omega⟩
         · right; right; right
           exact ⟨a2, f2, e1, k2, e2, e3.pre hk1, by omega⟩
       · simp only [pure, Except.pure, Except.ok.injEq, Prod.mk.injEq] at h
@@ -905,7 +917,7 @@ theorem wuCycle_sim (s s' : State) (a : Arch) (j : Nat) (hj : j < s.wus.length) 
         Live s → Live { s with writeBus := { s.writeBus with queue := q }, ctx := c' } := by
       intro c' hc' hl
       subst hc'
-      refine ⟨hl.xdue, hl.cdue, hl.ddue, hl.cql, hl.dql, ?_, hl.retIn, hl.fuDone⟩
+      refine ⟨hl.xdue, hl.cdue, hl.ddue, hl.cql, hl.dql, ?_, hl.retIn, hl.fuDone, hl.xbl, hl.pcap⟩
       have := hl.backL
       rw [hin] at this
       exact this.writeback
